@@ -86,7 +86,10 @@ func runProg(t *testing.T, prop string, c *caseT) bool {
 		held = false
 	} else if pn != nil {
 		msg := fmt.Sprint(pn)
-		if strings.Contains(msg, "deadlock") {
+		if strings.Contains(msg, "deadlock") && c.End == "pacer-stays" {
+			// a throttling stage under a context that can never be cancelled keeps its pacer for good (the property
+			// allows the pacer until cancel): the bubble cannot end cleanly, the verdict was taken before
+		} else if strings.Contains(msg, "deadlock") {
 			rec.Violate(prop+"/"+c.Stage+"/deadlock", "the program cannot finish: every goroutine of the bubble is blocked forever ("+firstLine(msg)+")"+blockedStacks(msg), c)
 		} else {
 			rec.Violate(prop+"/"+c.Stage+"/panic", "panic: "+firstLine(msg), c)
@@ -230,6 +233,9 @@ func init() {
 }
 
 func progsC05(t *testing.T) {
+	progsSlow(t, "C05")
+	progsInPlaceMonoid(t, "C05", []int{0})
+	typedProgs(t, "C05")
 	for _, n := range thresholds(0, common.Pick(5000, 70000)) {
 		for _, mode := range []string{"left-first", "right-first"} {
 			runProg(t, "C05", &caseT{Stage: "prog/partition-sequential", N: n, Cap: n, Mode: mode, FSeed: uint64(n)})
@@ -315,6 +321,8 @@ func init() {
 }
 
 func progsC08(t *testing.T) {
+	progsSlow(t, "C08")
+	typedProgs(t, "C08")
 	for _, n := range thresholds(1, common.Pick(4100, 70000)) {
 		for i, cp := range []int{0, 1, 3, 16, 17, 100, 1000} {
 			if i > 1 && (n+i)%3 != 0 && !common.Thorough() {
@@ -496,6 +504,8 @@ func widePars() []int {
 }
 
 func progsC09(t *testing.T) {
+	progsSlow(t, "C09")
+	typedProgs(t, "C09")
 	for _, par := range widePars() {
 		for _, n := range []int{par, 2*par + 1, 4*par + 40, 1000} {
 			for _, mode := range []string{"Map", "FMap"} {
@@ -511,6 +521,8 @@ func progsC09(t *testing.T) {
 }
 
 func progsC10(t *testing.T) {
+	progsSlow(t, "C10")
+	progsInPlaceMonoid(t, "C10", []int{1, 2, 3, 4, 8, 33})
 	for _, par := range widePars() {
 		for _, mon := range []string{"sum", "prod", "max", "min", "and", "or"} {
 			ns := []int{0, 1, par - 1, par, par + 1, 3*par + 7}
@@ -554,12 +566,17 @@ func init() {
 		out, exx := pipe.Emit(ctx, c.Cap, tick, mf)
 		nerr := 0
 		errDone := make(chan struct{})
-		go func() {
-			defer close(errDone)
-			for range exx {
-				nerr++
-			}
-		}()
+		if c.Mode == "try+stderr" {
+			out = pipe.StdErr(out, exx) // the library's own error reader
+			close(errDone)
+		} else {
+			go func() {
+				defer close(errDone)
+				for range exx {
+					nerr++
+				}
+			}()
+		}
 		for i := 0; i < c.N; i++ {
 			v, ok := <-out
 			if !ok || v != i+100 {
@@ -662,6 +679,7 @@ func init() {
 }
 
 func progsC11(t *testing.T) {
+	typedProgs(t, "C11")
 	for _, n := range []int{0, 1, 5, 40} {
 		for _, cp := range []int{0, 1, 4, 64} {
 			for _, outage := range []int{0, 3, 20, 300} {
@@ -788,6 +806,8 @@ func init() {
 }
 
 func progsC12(t *testing.T) {
+	progsSlow(t, "C12")
+	typedProgs(t, "C12")
 	for _, k := range thresholds(1, common.Pick(300, 2100)) {
 		for _, cp := range []int{0, 1} {
 			runProg(t, "C12", &caseT{Stage: "prog/join-round-robin", N: k, Cap: cp})
@@ -877,6 +897,8 @@ func init() {
 }
 
 func progsC13(t *testing.T) {
+	progsC13Idle(t)
+	typedProgs(t, "C13")
 	for _, ops := range thresholds(1, common.Pick(4200, 70000)) {
 		for i, cp := range []int{0, 1, 5} {
 			if i > 0 && (ops+i)%4 != 0 {
@@ -938,5 +960,361 @@ func callerOwnsClear(s []<-chan int) {
 func callerOwnsFill(s []<-chan int, g int) {
 	for i := range s {
 		s[i] = pipe.Seq(g*1000+i*10, g*1000+i*10+1, g*1000+i*10+2)
+	}
+}
+
+// ---------------------------------------------------------------- C06
+
+func progsC06(t *testing.T) {
+	progsSlow(t, "C06")
+	typedProgs(t, "C06")
+	// a source that fails for good, its errors taken by StdErr (or a reader), then cancel: everything has to go
+	for _, n := range []int{0, 3} {
+		for _, cp := range []int{0, 1, 8} {
+			for _, outage := range []int{0, 5, 100} {
+				for _, mode := range []string{"try", "try+stderr"} {
+					runProg(t, "C06", &caseT{Stage: "prog/emit-outage-then-cancel", N: n, Cap: cp, Delay: outage, Mode: mode, Tick: int64(time.Millisecond)})
+				}
+			}
+		}
+	}
+}
+
+// ---------------------------------------------------------------- monoids over reference values
+
+// A monoid whose carrier is a reference (a counter object, a map) commonly accumulates in place: Combine(a, b) adds b
+// into a and returns a, and Empty() hands out a fresh accumulator. That is a lawful use of Fold as long as every
+// fold (and every worker of a parallel fold) starts from its own Empty().
+type tally struct{ sum, n int }
+
+type tallyMonoid struct{}
+
+func (tallyMonoid) Empty() *tally { return &tally{} }
+func (tallyMonoid) Combine(a, b *tally) *tally {
+	a.sum += b.sum
+	a.n += b.n
+	return a
+}
+
+type bagMonoid struct{}
+
+func (bagMonoid) Empty() map[int]int { return map[int]int{} }
+func (bagMonoid) Combine(a, b map[int]int) map[int]int {
+	for k, v := range b {
+		a[k] += v
+	}
+	return a
+}
+
+func init() {
+	progs["fold-in-place-monoid"] = func(c *caseT) string {
+		ctx, cancel := context.WithCancel(context.Background())
+		defer cancel()
+		ts := make([]*tally, c.N)
+		bs := make([]map[int]int, c.N)
+		wantSum := 0
+		wantBag := map[int]int{}
+		for i := range ts {
+			ts[i] = &tally{sum: i + 1, n: 1}
+			bs[i] = map[int]int{i % 5: 1, 100: 2}
+			wantSum += i + 1
+			wantBag[i%5]++
+			wantBag[100] += 2
+		}
+		for round := 0; round < 2; round++ { // the monoid value is used for more than one fold
+			var gt []*tally
+			var gb []map[int]int
+			if c.Par > 0 {
+				gt = fork.ToSeq(fork.Fold(ctx, c.Par, fork.Seq(ts...), tallyMonoid{}))
+				gb = fork.ToSeq(fork.Fold(ctx, c.Par, fork.Seq(bs...), bagMonoid{}))
+			} else {
+				gt = pipe.ToSeq(pipe.Fold(ctx, pipe.Seq(ts...), tallyMonoid{}))
+				gb = pipe.ToSeq(pipe.Fold(ctx, pipe.Seq(bs...), bagMonoid{}))
+			}
+			if len(gt) != 1 || gt[0] == nil || gt[0].sum != wantSum || gt[0].n != c.N {
+				d := "nothing"
+				if len(gt) == 1 && gt[0] != nil {
+					d = fmt.Sprintf("sum %d over %d elements", gt[0].sum, gt[0].n)
+				}
+				return fmt.Sprintf("Fold (par %d, round %d) with an in-place counter monoid over %d elements gave %s, the left fold gives sum %d over %d", c.Par, round, c.N, d, wantSum, c.N)
+			}
+			if len(gb) != 1 || len(gb[0]) != len(wantBag) {
+				return fmt.Sprintf("Fold (par %d, round %d) with an in-place multiset union gave %v, want %v", c.Par, round, gb, wantBag)
+			}
+			for k, v := range wantBag {
+				if gb[0][k] != v {
+					return fmt.Sprintf("Fold (par %d, round %d) with an in-place multiset union gave %v, want %v", c.Par, round, gb[0], wantBag)
+				}
+			}
+			for i, x := range ts {
+				if x.sum != i+1 || x.n != 1 || len(bs[i]) != 2 {
+					return fmt.Sprintf("Fold changed input element %d", i)
+				}
+			}
+		}
+		return ""
+	}
+}
+
+func progsInPlaceMonoid(t *testing.T, prop string, pars []int) {
+	for _, par := range pars {
+		for _, n := range []int{0, 1, 2, 3, par, par + 1, 10, 100} {
+			runProg(t, prop, &caseT{Stage: "prog/fold-in-place-monoid", Par: par, N: n})
+		}
+	}
+}
+
+// ---------------------------------------------------------------- slow parties
+
+func init() {
+	// nobody is in a hurry: the producer pauses P between sends and every consumer pauses Q between receives, for
+	// pauses from a millisecond to an hour of virtual time. Without a cancel a stage waits as long as it takes.
+	progs["slow-parties"] = func(c *caseT) string {
+		ctx, cancel := context.WithCancel(context.Background())
+		defer cancel()
+		p, q := time.Duration(c.Tick), time.Duration(c.Delay)*time.Millisecond
+		xs := seqInts(1, c.N)
+		in := make(chan int, c.Cap)
+		prodDone := make(chan struct{})
+		go func() {
+			defer close(prodDone)
+			defer close(in)
+			for _, x := range xs {
+				time.Sleep(p)
+				in <- x
+			}
+		}()
+		slowly := func(ch <-chan int) []int {
+			var got []int
+			for v := range ch {
+				got = append(got, v)
+				time.Sleep(q)
+			}
+			return got
+		}
+		odd := func(x int) bool { return x%2 == 1 }
+		var got, want []int
+		switch c.Mode {
+		case "Map":
+			out, exx := pipe.Map(ctx, in, pipe.Pure(func(x int) int { return x * 10 }))
+			go func() {
+				for range exx {
+				}
+			}()
+			got = slowly(out)
+			for _, x := range xs {
+				want = append(want, x*10)
+			}
+		case "FMap":
+			out, exx := pipe.FMap(ctx, in, pipe.LiftF(func(ctx context.Context, x int, o chan<- int) error {
+				for j := 0; j < 2; j++ {
+					select {
+					case o <- x*10 + j:
+					case <-ctx.Done():
+					}
+				}
+				return nil
+			}))
+			go func() {
+				for range exx {
+				}
+			}()
+			got = slowly(out)
+			for _, x := range xs {
+				want = append(want, x*10, x*10+1)
+			}
+		case "Filter":
+			got = slowly(pipe.Filter(ctx, in, pipe.Pure(odd)))
+			for _, x := range xs {
+				if odd(x) {
+					want = append(want, x)
+				}
+			}
+		case "Take":
+			got = slowly(pipe.Take(ctx, in, c.N-1))
+			want = xs[:max(c.N-1, 0)]
+			go func() { // whoever owns the input takes what Take leaves
+				for range in {
+				}
+			}()
+		case "TakeWhile":
+			got = slowly(pipe.TakeWhile(ctx, in, pipe.Pure(func(x int) bool { return x < c.N })))
+			want = xs[:max(c.N-1, 0)]
+			go func() {
+				for range in {
+				}
+			}()
+		case "Partition":
+			l, r := pipe.Partition(ctx, in, pipe.Pure(odd))
+			var rs []int
+			done := make(chan struct{})
+			go func() { defer close(done); rs = slowly(r) }()
+			got = slowly(l)
+			<-done
+			got = append(got, rs...)
+			for _, x := range xs {
+				if odd(x) {
+					want = append(want, x)
+				}
+			}
+			for _, x := range xs {
+				if !odd(x) {
+					want = append(want, x)
+				}
+			}
+		case "Fold":
+			got = slowly(pipe.Fold(ctx, in, monoid.FromOp(7, func(a, b int) int { return a*31 + b })))
+			w := 7
+			for _, x := range xs {
+				w = w*31 + x
+			}
+			want = []int{w}
+		case "ForEach":
+			n := 0
+			<-pipe.ForEach(ctx, in, pipe.Pure(func(x int) int { n++; time.Sleep(q); return x }))
+			got, want = []int{n}, []int{c.N}
+		case "Join":
+			got = slowly(pipe.Join(ctx, in, pipe.Seq[int]()))
+			want = xs
+		case "New":
+			rcv, snd := pipe.New[int](ctx, c.Cap)
+			go func() {
+				for x := range in {
+					snd <- x
+				}
+				close(snd)
+			}()
+			got = slowly(rcv)
+			want = xs
+		case "fork.Map":
+			out, exx := fork.Map(ctx, 3, in, fork.Pure(func(x int) int { time.Sleep(q / 2); return x * 10 }))
+			go func() {
+				for range exx {
+				}
+			}()
+			got = slowly(out)
+			slices.Sort(got)
+			for _, x := range xs {
+				want = append(want, x*10)
+			}
+		case "fork.Fold":
+			got = slowly(fork.Fold(ctx, 3, in, monoid.FromOp(0, func(a, b int) int { return a + b })))
+			want = []int{c.N * (c.N + 1) / 2}
+		}
+		<-prodDone // (Take and TakeWhile end before the producer does)
+		if !slices.Equal(got, want) && !(len(got) == 0 && len(want) == 0) {
+			return fmt.Sprintf("%s with a producer pausing %v and consumers pausing %v: %s", c.Mode, p, q, diffAt(got, want))
+		}
+		return ""
+	}
+}
+
+var slowStages = map[string][]string{
+	"C05": {"Map", "FMap", "Filter", "Take", "TakeWhile", "Partition", "Fold", "ForEach"},
+	"C06": {"Map", "Filter", "Join"},
+	"C08": {"New"}, "C09": {"fork.Map"}, "C10": {"fork.Fold"}, "C12": {"Join"},
+}
+
+func progsSlow(t *testing.T, prop string) {
+	pauses := []time.Duration{0, time.Millisecond, time.Second, time.Minute, time.Hour}
+	for _, st := range slowStages[prop] {
+		for _, p := range pauses {
+			for _, q := range pauses {
+				if p == 0 && q == 0 {
+					continue
+				}
+				for _, cp := range []int{0, 2} {
+					runProg(t, prop, &caseT{Stage: "prog/slow-parties", Mode: st, N: 6, Cap: cp, Tick: int64(p), Delay: int(q / time.Millisecond)})
+				}
+			}
+		}
+	}
+}
+
+// ---------------------------------------------------------------- C13: idle, then a burst
+
+func init() {
+	// nothing arrives for a while (tokens pile up to one interval's worth), then a burst with a ready consumer: no
+	// window of one interval may see more than 2*ops+1+c deliveries, under every kind of context
+	progs["throttle-idle-burst"] = func(c *caseT) string {
+		var ctx context.Context
+		cancel := func() {}
+		switch c.Mode {
+		case "background":
+			ctx = context.Background()
+		case "todo":
+			ctx = context.TODO()
+		case "without-cancel":
+			p, cf := context.WithCancel(context.Background())
+			ctx = context.WithoutCancel(p)
+			cancel = cf
+		case "deadline-far":
+			ctx, cancel = context.WithTimeout(context.Background(), 1000*time.Hour)
+		default:
+			ctx, cancel = context.WithCancel(context.Background())
+		}
+		defer cancel()
+		ops, iv := c.N, time.Duration(c.Tick)
+		in := make(chan int, c.Cap)
+		out := pipe.Throttling(ctx, in, ops, iv)
+		start := time.Now()
+		var at []time.Duration
+		total := 0
+		burst := func(n int) string {
+			done := make(chan struct{})
+			go func() {
+				defer close(done)
+				for i := 0; i < n; i++ {
+					in <- total + i
+				}
+			}()
+			for i := 0; i < n; i++ {
+				v := <-out
+				if v != total+i {
+					return fmt.Sprintf("element %d delivered at position %d", v, total+i)
+				}
+				at = append(at, time.Since(start))
+			}
+			<-done
+			total += n
+			return ""
+		}
+		idle := time.Duration(c.Delay) * iv / 4 // Delay = quarter intervals of idleness
+		for round := 0; round < 3; round++ {
+			time.Sleep(idle)
+			if d := burst(4*ops + 3 + c.Cap); d != "" {
+				return d
+			}
+		}
+		close(in)
+		if _, ok := <-out; ok {
+			return "an element nobody sent"
+		}
+		lo := 0
+		for i, ti := range at {
+			for at[lo] <= ti-iv {
+				lo++
+			}
+			if n := i - lo + 1; n > 2*ops+1+c.Cap {
+				return fmt.Sprintf("ops=%d interval=%v cap=%d, idle %v then a burst (context: %s): %d deliveries within one interval ending at %v, bound is %d", ops, iv, c.Cap, idle, c.Mode, n, ti, 2*ops+1+c.Cap)
+			}
+		}
+		return ""
+	}
+}
+
+func progsC13Idle(t *testing.T) {
+	for _, ops := range []int{1, 2, 5, 16, 100} {
+		for _, q := range []int{0, 1, 4, 5, 13, 40} {
+			for _, cp := range []int{0, 3} {
+				for _, mode := range []string{"", "background", "todo", "without-cancel", "deadline-far"} {
+					end := ""
+					if mode == "background" || mode == "todo" || mode == "without-cancel" {
+						end = "pacer-stays"
+					}
+					runProg(t, "C13", &caseT{Stage: "prog/throttle-idle-burst", N: ops, Cap: cp, Delay: q, Mode: mode, End: end, Tick: int64(200 * time.Millisecond)})
+				}
+			}
+		}
 	}
 }
